@@ -36,5 +36,5 @@ for S in $SEEDS; do
 done
 git checkout -q -- .
 # keep the violation files (small), drop the lanes of the side run (several GB)
-mkdir -p "$OUT/side-violations"; cp -r /verif/.work/side-$P$V/violations/. "$OUT/side-violations/" 2>/dev/null
-rm -rf /verif/.work/side-$P$V
+mkdir -p "$OUT/side-violations"; cp -r /verif/.work-side-$P$V/violations/. "$OUT/side-violations/" 2>/dev/null
+rm -rf /verif/.work-side-$P$V
